@@ -10,3 +10,7 @@ def prop(pid, level, technique, text, explanation, assumptions, note):
 prop("C01", "other", "static sibling-agreement analysis (THIR wire-shape regex containment)",
      "x", "x", ["x"], "x")
 prop("C02", "other", "x", "x", "x", ["x"], "x")
+prop("C06", "other", "x", "x", "x", ["x"], "x")
+prop("C07", "other", "x", "x", "x", ["x"], "x")
+prop("C08", "other", "x", "x", "x", ["x"], "x")
+prop("C14", "other", "x", "x", "x", ["x"], "x")
